@@ -53,5 +53,3 @@ Definition consistent_prevouts (spent : list txout) (o : op) : Prop :=
 End CACHE.
 
 Definition schnorr_acp (t : schnorr_ty) : bool := snd (schnorr_split t).
-(* finding F11: the decidable class of hash types for which `One` does not suffice although ANYONECANPAY is set *)
-Definition F11_known (t : schnorr_ty) : bool := schnorr_eqb t SAllAcp.
